@@ -23,7 +23,12 @@
 (*                     is 0 - kept as a negative control: TLC must find the panic.                 *)
 EXTENDS LoadBalance
 
-CONSTANTS AtomicRR, FixedWR, HashRange
+(*   CtrBits  = 0      is the code: the counter is a uint64 and never wraps within the numbers of   *)
+(*                     selections considered (k0 < 2^63, so that int(counter) is not negative);       *)
+(*              W > 0  a W-bit counter that wraps to 0 - a negative control: when the number of       *)
+(*                     servers does not divide 2^W the rotation restarts out of phase and TLC must    *)
+(*                     find the unfair count (reached from an aged balancer, IAge).                   *)
+CONSTANTS AtomicRR, FixedWR, HashRange, CtrBits
 
 VARIABLES objs,      \* objs[g]: sequence of [id, w] - the Servers slice of generation g's balancer
           ctr,       \* ctr[g]: the round robin counter of generation g's balancer
@@ -62,6 +67,17 @@ IReplace(I) ==
     /\ ctr' = Append(ctr, 0)
     /\ UNCHANGED <<hv, tmp, panicked>>
 
+Wrapped(c) == IF CtrBits = 0 THEN c ELSE c % (2 ^ CtrBits)
+
+(* the balancer after k0 = 2^b - d selections: its counter holds k0 (as far as it has bits) and the  *)
+(* k0 mod n servers at the head of the rotation have had one selection more                           *)
+IAge(b, d) ==
+    /\ lst[gen] # {} /\ 2 ^ b >= d
+    /\ LET q == objs[gen]  r0 == (2 ^ b - d) % Len(q) IN
+         Age(b, d, {q[i].id : i \in 1..r0})
+    /\ ctr' = [ctr EXCEPT ![gen] = Wrapped(2 ^ b - d)]
+    /\ UNCHANGED <<objs, hv, tmp, panicked>>
+
 IInv(p, k) == Inv(p, k) /\ UNCHANGED ivars
 ILoad(p)   == Snap(p) /\ UNCHANGED ivars
 IRet(p)    == Ret(p) /\ UNCHANGED ivars
@@ -83,7 +99,7 @@ IChooseEmpty(p) ==
 IChooseRR(p) ==
     /\ pc[p] = "pick" /\ objs[sg[p]] # <<>> /\ cfg.policy \in {"roundRobin", "any"} /\ AtomicRR
     /\ Chosen(p, At(objs[sg[p]], ctr[sg[p]]))
-    /\ ctr' = [ctr EXCEPT ![sg[p]] = @ + 1]
+    /\ ctr' = [ctr EXCEPT ![sg[p]] = Wrapped(@ + 1)]
     /\ UNCHANGED <<objs, hv, tmp, panicked>>
 
 (* negative control: counter read and written in two steps *)
@@ -126,6 +142,7 @@ IChooseWeighted(p) ==
 
 INext ==
     \/ \E I \in InstSets : IReplace(I)
+    \/ \E b \in AgeBits, d \in AgeD : IAge(b, d)
     \/ \E p \in Procs :
          \/ \E k \in Keys : IInv(p, k)
          \/ ILoad(p) \/ IRet(p)
